@@ -319,6 +319,23 @@ impl RuntimeData {
             }
         }
 
+        // a closure that is being executed may be referenced by its call frame only
+        for frame in self.call_stack.iter() {
+            if !frame.closure.is_null() {
+                for obj in self.object_list.iter_mut() {
+                    unsafe {
+                        let t = obj.as_mut();
+                        if let CaoLangObjectBody::Closure(c) = &t.body {
+                            if std::ptr::eq(c, frame.closure) {
+                                t.marker = GcMarker::Gray;
+                                progress_tracker.push(t);
+                            }
+                        }
+                    }
+                }
+            }
+        }
+
         macro_rules! checked_enqueue_value {
             ($val: ident) => {
                 if let Value::Object(mut value) = $val {
